@@ -79,6 +79,24 @@ const VhSpec kSpec = {
       nullptr },
 };
 
+#if defined(__has_feature)
+#if __has_feature(address_sanitizer)
+#define VH_ASAN 1
+#endif
+#endif
+#if defined(__SANITIZE_ADDRESS__)
+#define VH_ASAN 1
+#endif
+#ifdef VH_ASAN
+extern "C" void __asan_poison_memory_region(void const volatile*, size_t);
+extern "C" void __asan_unpoison_memory_region(void const volatile*, size_t);
+#define POISON(p, n) __asan_poison_memory_region((p), (n))
+#define UNPOISON(p, n) __asan_unpoison_memory_region((p), (n))
+#else
+#define POISON(p, n) ((void)0)
+#define UNPOISON(p, n) ((void)0)
+#endif
+
 struct MockDev
 {
     union
@@ -446,6 +464,10 @@ m_close(Driver*, Device* in)
     d->snapshot.assign((uint8_t*)&d->u, (uint8_t*)&d->u + sizeof d->u);
     DeviceStatusCode s = g_script.status();
     g->c.trace("      driver: close(device #%d) -> %s", d->serial, s ? "Err" : "Ok");
+    // ... and must not even be read: a real driver frees it here.  Under AddressSanitizer the object is
+    // poisoned, so any access by the code under test (also a write of the value already there) aborts
+    // the case with a use-after-poison report.
+    POISON(&d->u, sizeof d->u);
     return s;
 }
 DeviceStatusCode
@@ -460,6 +482,10 @@ check_released(Ctx& x, const char* where)
     for (MockDev* d : x.devs)
         if (d->closed && !x.c.ended) {
             const uint8_t* p = (const uint8_t*)&d->u;
+            UNPOISON(&d->u, sizeof d->u);
+            std::vector<uint8_t> now(p, p + sizeof d->u);
+            POISON(&d->u, sizeof d->u);
+            p = now.data();
             for (size_t k = 0; k < d->snapshot.size(); ++k)
                 if (p[k] != d->snapshot[k]) {
                     const char* field = "other";
@@ -496,11 +522,26 @@ DeviceManager g_dm;
 
 } // namespace
 
-// The HAL asks the device manager for the driver of an identifier: always the mock driver.
+void
+quiet_reporter(int, const char*, int, const char*, const char*)
+{
+}
+
+// The mock driver is handed to the HAL the way every driver is: wrapped by the real loader (loader.c),
+// which dlopens libvhalmock.so next to the executable; that trampoline calls back vmock_driver_init.
+Driver* g_wrapped = nullptr;
+extern "C" struct Driver*
+vmock_driver_init(void (*)(int, const char*, int, const char*, const char*))
+{
+    return &g_driver;
+}
+extern "C" struct Driver* driver_load(const char* relative_path, void (*reporter)(int, const char*, int, const char*, const char*));
+
+// The HAL asks the device manager for the driver of an identifier: always the (wrapped) mock driver.
 extern "C" struct Driver*
 device_manager_get_driver(const struct DeviceManager*, const struct DeviceIdentifier*)
 {
-    return &g_driver;
+    return g_wrapped ? g_wrapped : &g_driver;
 }
 
 extern "C" const VhSpec*
@@ -521,6 +562,13 @@ vh_run(const VhTok* tape, size_t n, VhReport* rep)
     g_driver.open = m_open;
     g_driver.close = m_close;
     g_driver.shutdown = m_shutdown;
+    if (!g_wrapped) {
+        g_wrapped = driver_load("vhalmock", quiet_reporter);
+        if (!g_wrapped) {
+            fprintf(stderr, "hal harness: cannot load libvhalmock.so through the loader\n");
+            abort();
+        }
+    }
 
     static uint8_t framebuf[256];
     static uint64_t vf_storage[64];
@@ -854,8 +902,10 @@ vh_run(const VhTok* tape, size_t n, VhReport* rep)
                 x.c.fail("C11", "close-count", d->closes == 0 ? "never-closed" : "closed-twice",
                          "device #%d (%s) was opened by the driver and closed %d times", d->serial, d->is_cam ? "camera" : "storage", d->closes);
     }
-    for (MockDev* d : x.devs)
+    for (MockDev* d : x.devs) {
+        UNPOISON(&d->u, sizeof d->u);
         delete d;
+    }
     g = nullptr;
     delete px;
     return rep->verdict;
